@@ -585,3 +585,15 @@ Definition check_head (key : string) (observed : option string) : nat :=
   | None, None => 0
   | _, _ => 2
   end.
+
+(* compact encoding used by case files: keys are indices into a per-file table of strings *)
+Inductive obsi :=
+| ObsOkI (c t : list (nat * value)) (f : list nat) (g : option bool) (d : string)
+| ObsRejI (k : option kind) (c : option (list (nat * value))).
+Definition resolve (ks : list string) (d : list (nat * value)) : dict :=
+  map (fun p => (nth (fst p) ks "", snd p)) d.
+Definition obs_of (ks : list string) (o : obsi) : obs :=
+  match o with
+  | ObsOkI c t f g d => ObsOk (resolve ks c) (resolve ks t) (map (fun i => nth i ks "") f) g d
+  | ObsRejI k c => ObsRej k (option_map (resolve ks) c)
+  end.
